@@ -12,7 +12,31 @@ text (node types, nesting, field names, byte and row/column ranges, named/extra/
 whenever the from-scratch tree has no ERROR or MISSING node.  When the new text is not in the
 language, both the incremental and the from-scratch tree report an error."
 
-Clause map
+CLAUSE-BY-CLAUSE MAP (property text of properties.jsonl → theorems; status = PROVED on the model /
+PARTIAL (hypothesis, and how often it holds on real data in the quick tier) / JUDGED ONLY on the
+real runtime by `judge`, Judge.lean)
+
+| phrase of the property | theorems / judge clause | status |
+|---|---|---|
+| "After any sequence of text edits, each mirrored on the old tree with the tree-edit call" | one edit: `relex_before`, `relex_after`, `relex_same_unmarked_leaf` (+ C10 `edits_preserve_tiling` for histories of edits on the tree); the re-parse theorems below hold for ANY old tree with certificates, so they compose over histories; histories of 1–8 edits through erroneous states are JUDGED | PARTIAL: hypothesis `LexLocal` — evaluated as obligation `hyp:LexLocal` on ≈10^5 tokens per run: holds except for finding `C01-multibyte-lookahead-char` (1–4 tokens) |
+| "re-parsing with that old tree returns a tree identical to a from-scratch parse of the new text" | `incr_eq_scratch` (+ `incr_reaches`, `subtree_reuse_sound`, `incr_eq_scratch_tokens`, `reuseOracle_sound`): every halting incremental run of the LR machine ends in the configuration of the from-scratch run | PARTIAL: deterministic entries, token + non-terminal extras, no error recovery; hypothesis = certificates `LR.ReuseOK` — checked for EVERY real reuse event: 25 233 certified + 57 via a GLR version, 0 mismatch, 97 skipped (error-recovered subtrees); machine validated on 11 778 + 560 (GLR) real documents.  Whole statement JUDGED on every case |
+| "(node types, nesting, …" | machine trees (`PTree`): symbols and nesting are part of `incr_eq_scratch`'s equal stacks | PROVED on the machine (same partiality) |
+| "… field names, byte and row/column ranges, named/extra/missing flags)" | `flatten` equality (symbols, nesting, byte + point ranges, named/extra/missing) and cursor-walk equality (kind, field name, flags) | JUDGED ONLY (ranges follow from equal token sequences; fields/aliases are table data not modelled) |
+| "whenever the from-scratch tree has no ERROR or MISSING node" | the machine theorems are about error-free runs; `dirtyTree` in the judge | as above |
+| "When the new text is not in the language, both … report an error" | `incr_error_iff` (error = machine stuck) | PARTIAL: error RECOVERY not modelled; JUDGED (`has_error` of both roots) |
+| quantifier "LR" | all machine theorems | PROVED (partial as above) |
+| "GLR with declared conflicts" | gate: reuse only with one version (not modelled); validator `validateDocumentGLR`/`certifyReuseGLR` | JUDGED + validated (560 documents), not in theorems |
+| "keyword extraction" | `first_leaf_keyword`, `first_leaf_same_mode` (gate decision) | gate PROVED + replayed; rest JUDGED |
+| "external scanners with serialized state" | gate input `extEq`; `Iter.lastExt`/`lastExternalExt` recomputed and compared with the log (≈1.1·10^5 comparisons) | gate PROVED + corr; JUDGED |
+| "column-sensitive scanners" | `lineDiffOf` (repair 835fde5 as gate variant); not `LexLocal` | JUDGED; findings 1 (fixed) and 5 (known) |
+| "insert/delete/replace at any byte, inside tokens, inside a token's look-ahead, in whitespace, at BOF/EOF" | `relex_*` + C10 marking; exhaustive single-character edits at every byte | PARTIAL (`LexLocal`) + JUDGED |
+| "multi-byte characters" | — | JUDGED; finding 6 `C01-multibyte-lookahead-char` (repair proposed) |
+| "through intermediate erroneous states" | — | JUDGED ONLY |
+| "all included-range sets" | `rangeIntersects_sound/_complete/_skip`, `view_agree`, `relex_same_ranges`, gate variants `lineDiffOf`, `diffSpanEnd … oldEnd` | PARTIAL: hypothesis `LexLocalV` (false at a character-splitting boundary and, before 2da2be2, at the end of the included input), `RangesSorted` evaluated (`hyp:RangesSorted`: always holds); findings 2, 3 (known), 4 (fixed) |
+| "all input chunkings" | — | JUDGED ONLY (chunk sizes 1,2,3,5,7) |
+| the gate itself (mechanism anchor) | `gate_refuses`, `gate_accepts`, `gate_verdict_complete`, `refusal_reasons_sound`, `first_leaf_*`, `breakdown_offset/_stops`, `gate_state_test_partial` | PROVED on the port; port = code by log replay (≈3·10^5 events, 100 %) |
+
+Details per group of theorems
 * "the old tree is only reused where that is sound" — decision logic of the reuse gate:
   `gate_refuses` (a node that has_changes / is ERROR / MISSING / fragile / overlaps an included-range
   difference with its look-ahead / starts elsewhere than the parser position / follows a different
